@@ -79,6 +79,27 @@ def run(prog, tier):
         bad = sorted(x for x in reach_of[n] if x in MT_UNSAFE)
         if not bad:
             chk.ok('mt-unsafe-call', n, 'no MT-Unsafe function among %d reachable' % len(reach_of[n]), nontrivial=False)
+    # (b2) the documented mutators: "only explicit modification of a SHARED crystal collection requires external locking" - called on
+    # private collections they must not share anything else: no hidden libc state (strtok, ...), no static locals, and the only
+    # file-scope object they may write is the built-in collection itself
+    for m in sorted(MUTATORS):
+        if m not in funcs:
+            continue
+        for name in sorted(reachable(cg, m) & set(funcs)):
+            f = funcs[name]
+            statics = [n for n in walk(f['body']) if n.get('k') == 'var' and n.get('cls') == 'slocal']
+            chk.decide(not statics, 'mutator-private-state', f['unit'], name, 'static locals (via %s)' % m, '%s:%d' % (f['rel'], statics[0]['ln'] if statics else f['ln']),
+                       'static local(s) %s are shared by threads that work on their own private collections' % [s_['name'] for s_ in statics], why='no static local')
+            gw = sorted({root['name'] for node, lhs, kind in writes(f) for root, deref in [lvalue_root(lhs)]
+                         if root is not None and root.get('cls') in ('global', 'slocal') and root['name'] != MUTATORS.get(m, MUTATORS[m])})
+            chk.decide(not gw, 'mutator-private-state', f['unit'], name, 'shared objects (via %s)' % m, '%s:%d' % (f['rel'], f['ln']),
+                       'writes the file-scope object(s) %s, which threads working on private collections share' % gw,
+                       why='writes only its arguments, locals, fresh heap and the collection it was given')
+            for callee in sorted(cg.get(name, ())):
+                if callee in MT_UNSAFE and callee != 'exit':
+                    ln = next((n['ln'] for n in walk(f['body']) if n.get('k') == 'CallExpr' and n.get('callee') == callee), f['ln'])
+                    chk.bad('mutator-private-state', f['unit'], name, '%s (via %s)' % (callee, m), '%s:%d' % (f['rel'], ln),
+                            '%s calls %s (%s): threads that fill their own private collections still share that hidden state' % (name, callee, MT_UNSAFE[callee]))
     # (c) error objects: only created by the error constructors and stored through the slot parameter
     for name in ('xrl_set_error', 'xrl_set_error_literal', 'xrl_propagate_error'):
         f = funcs[name]
